@@ -1,5 +1,5 @@
 """Family L (generated lexer): shared pipeline for C02 C07 C08 C10 C11 C15."""
-import json, os, random, itertools
+import json, os, random, itertools, shutil
 from vlib import *
 import lcase
 from lcase import *
@@ -111,40 +111,63 @@ def write_ldata(sc, sub, lcases, lruns, jobs=None):
     return sd
 
 
-def run_lexobs(sc, lcases, lruns, timeout=1800, tag="lobs"):
-    if not lruns:
-        r = TlcResult(); r.ok = True
-        return [], r
-    sd = write_ldata(sc, "spec-" + tag, lcases, lruns)
-    r = tlc(sc, "LexObs", cfg="LexObs.cfg", cwd=sd, timeout=timeout)
-    tlc_must(r, "LexObs")
-    if r.violation or r.distinct != 2 * len(lruns):
-        raise Infra("LexObs evaluated %d states for %d runs (%s)\n%s" % (r.distinct, len(lruns), r.violation, r.out[-1500:]))
-    return [l for l in r.lines if l.get("lo") == "bad"], r
+def _chunks(lruns, chunk):
+    for k in range(0, len(lruns), chunk):
+        yield k, lruns[k:k + chunk]
 
 
-def run_lextrace(sc, lcases, lruns, timeout=1800, tag="ltrace"):
-    if not lruns:
-        r = TlcResult(); r.ok = True
-        return {}, r
-    sd = write_ldata(sc, "spec-" + tag, lcases, lruns)
-    r = tlc(sc, "LexerTrace", cfg="LexerTrace.cfg", cwd=sd, timeout=timeout)
-    tlc_must(r, "LexerTrace")
-    if r.violation:
-        raise Infra("LexerTrace: TLC-level violation " + r.violation)
-    return {l["r"]: l for l in r.lines if "lt" in l}, r
+def run_lexobs(sc, lcases, lruns, timeout=1800, tag="lobs", chunk=150000):
+    total = TlcResult(); total.ok = True
+    bad = []
+    for k, part in _chunks(lruns, chunk):
+        sd = write_ldata(sc, "spec-%s-%d" % (tag, k // chunk), lcases, part)
+        r = tlc(sc, "LexObs", cfg="LexObs.cfg", cwd=sd, timeout=timeout)
+        tlc_must(r, "LexObs")
+        if r.violation or r.distinct != 2 * len(part):
+            raise Infra("LexObs evaluated %d states for %d runs (%s)\n%s" % (r.distinct, len(part), r.violation, r.out[-1500:]))
+        for l in r.lines:
+            if l.get("lo") == "bad":
+                l["r"] += k
+                bad.append(l)
+        total.states += r.states; total.distinct += r.distinct
+        shutil.rmtree(sd, ignore_errors=True)
+    return bad, total
 
 
-def run_lexaccount(sc, lcases, lruns, timeout=1800, tag="lacc"):
-    if not lruns:
-        r = TlcResult(); r.ok = True
-        return [], r
-    sd = write_ldata(sc, "spec-" + tag, lcases, lruns)
-    r = tlc(sc, "LexAccount", cfg="LexAccount.cfg", cwd=sd, timeout=timeout)
-    tlc_must(r, "LexAccount")
-    if r.violation or r.distinct != 2 * len(lruns):
-        raise Infra("LexAccount evaluated %d states for %d runs (%s)" % (r.distinct, len(lruns), r.violation))
-    return [l for l in r.lines if l.get("la") == "bad"], r
+def run_lextrace(sc, lcases, lruns, timeout=1800, tag="ltrace", chunk=40000):
+    total = TlcResult(); total.ok = True
+    out = {}
+    for k, part in _chunks(lruns, chunk):
+        sd = write_ldata(sc, "spec-%s-%d" % (tag, k // chunk), lcases, part)
+        r = tlc(sc, "LexerTrace", cfg="LexerTrace.cfg", cwd=sd, timeout=timeout)
+        tlc_must(r, "LexerTrace")
+        if r.violation:
+            raise Infra("LexerTrace: TLC-level violation " + r.violation)
+        for l in r.lines:
+            if "lt" in l:
+                l["r"] += k
+                out[l["r"]] = l
+        total.states += r.states; total.distinct += r.distinct
+        shutil.rmtree(sd, ignore_errors=True)
+    return out, total
+
+
+def run_lexaccount(sc, lcases, lruns, timeout=1800, tag="lacc", chunk=40000):
+    total = TlcResult(); total.ok = True
+    bad = []
+    for k, part in _chunks(lruns, chunk):
+        sd = write_ldata(sc, "spec-%s-%d" % (tag, k // chunk), lcases, part)
+        r = tlc(sc, "LexAccount", cfg="LexAccount.cfg", cwd=sd, timeout=timeout)
+        tlc_must(r, "LexAccount")
+        if r.violation or r.distinct != 2 * len(part):
+            raise Infra("LexAccount evaluated %d states for %d runs (%s)" % (r.distinct, len(part), r.violation))
+        for l in r.lines:
+            if l.get("la") == "bad":
+                l["r"] += k
+                bad.append(l)
+        total.states += r.states; total.distinct += r.distinct
+        shutil.rmtree(sd, ignore_errors=True)
+    return bad, total
 
 
 def run_product(sc, lcases, jobs, timeout=1800, tag="lprod"):
